@@ -12,7 +12,12 @@ from core import fbits_raw, fbits
 
 MODULE = "DfolsVerif.Properties.C06"
 BUILD_TARGETS = ["DfolsVerif.Driver.ClipDrv"]
-THEOREMS = ["Dfols.C06.C06_box_frame", "Dfols.C06.C06_old_wrong_box", "Dfols.C06.C06_args_passthrough"]
+def pre_build(ctx):
+    import gen_hcalls
+    ctx.cov["regulariser_calls_in_repo"] = gen_hcalls.regenerate(ctx)
+
+
+THEOREMS = ["Dfols.C06.C06_src_h_calls", "Dfols.C06.C06_box_frame", "Dfols.C06.C06_old_wrong_box", "Dfols.C06.C06_args_passthrough"]
 TRUSTED_EXTRA = [
     "PARTIAL: convergence to F* within 1e-3(1+F*) and the success flag are NOT proved (outer iteration + S-FISTA with rounding): end-to-end search only",
     "oracles: FISTA with the exact prox of lambda*|x|_1 + box (20000 iterations); L-BFGS-B on the 1e-14-smoothed L2-norm regulariser",
@@ -76,7 +81,7 @@ def instance(rng):
     u = rng.random()
     # option variants under which the stored objective of a point is recomputed: sample averaging (a deterministic objective
     # sampled twice) and soft restarts that append points to a full interpolation set
-    variant = "nsamples2" if u < 0.15 else ("soft-restarts-increase-npt" if u < 0.3 else "default")
+    variant = "nsamples2" if u < 0.15 else ("soft-restarts-increase-npt" if u < 0.3 else ("momentum-extra-steps" if (u < 0.42 and bounded) else "default"))
     return dict(n=n, m=m, A=A, b=b, lam=lam, x0=x0, kind=kind, bounded=bounded, lo=lo, hi=hi, with_args=bool(rng.random() < 0.5),
                 variant=variant)
 
@@ -127,6 +132,13 @@ def run_instance(dfols, I):
         kw["nsamples"] = lambda delta, rho, it, nruns: 2
     elif I.get("variant") == "soft-restarts-increase-npt":
         kw["user_params"] = {"restarts.use_restarts": True, "restarts.increase_npt": True, "restarts.max_npt": I["n"] + 3}
+        kw["maxfun"] = 60 * (I["n"] + 1)
+    elif I.get("variant") == "momentum-extra-steps":
+        # regression set with random 'momentum' extra steps next to the box (documented options): only the consistency of the
+        # returned objective is judged for this variant — on the unchanged tree such runs can end with the linear-algebra
+        # warning when a bound is active at the solution, which is not this property's business
+        kw["npt"] = 2 * I["n"] + 1
+        kw["user_params"] = {"regression.num_extra_steps": 2, "regression.momentum_extra_steps": True}
         kw["maxfun"] = 60 * (I["n"] + 1)
     np.random.seed(0)
     try:
@@ -235,7 +247,9 @@ def search(ctx):
         gap = max(float(s.obj), Fx) - Fs
         stats["worst_gap"] = max(stats["worst_gap"], gap / (1 + Fs))
         stats[I.get("variant", "default")] = stats.get(I.get("variant", "default"), 0) + 1
-        if not (gap <= 1e-3 * (1 + Fs)):
+        if I.get("variant") == "momentum-extra-steps" and s.flag != 0:
+            stats["momentum_runs_not_judged_for_optimality"] = stats.get("momentum_runs_not_judged_for_optimality", 0) + 1
+        elif not (gap <= 1e-3 * (1 + Fs)):
             ctx.fail("C06:not-optimal|" + tag, "F(soln.x)=%r but F*=%r (gap %.2e > 1e-3(1+F*)), flag %d after %d evals" % (max(float(s.obj), Fx), Fs, gap, s.flag, s.nf), rp)
         elif s.flag != 0 and not (I.get("variant") == "soft-restarts-increase-npt" and s.flag == 1):
             # (with restarts switched on a run legitimately continues until the budget is spent: flag 1 is not held against it)
